@@ -441,7 +441,7 @@ def _jobs_for(prop, tier):
         return [j for j in jobs_option_below(tier) if j[1][3] == 'combinations'] + jobs_combinations(tier) + jobs_axis0(tier, 'combinations')
     if prop == 'C03':
         return jobs_c03(tier) + jobs_option_reduce(tier) + jobs_axis(tier, ('reduce',)) + jobs_reduce_nonlocal(tier)
-    return {'C02': (lambda t: jobs_c02(t) + jobs_numpy_toregular(t)), 'C03': jobs_c03, 'C04': (lambda t: jobs_c04(t) + jobs_numpy_toregular(t)), 'C06': (lambda t: jobs_c06(t) + jobs_axis(t, ('sort', 'argsort')) + jobs_numpy_sort(t) + jobs_sort_nonlocal(t) + jobs_option_sort(t) + jobs_option_sort_above(t) + jobs_option_argsort(t) + jobs_string_argsort(t)), 'C08': (lambda t: jobs_c08(t) + jobs_numpy(t) + jobs_numpy_types(t) + jobs_union(t) + jobs_reverse_merge(t) + jobs_record_merge(t) + jobs_list_merge(t) + [j for j in jobs_record_named(t) if j[0] is h_record_mergemany_named] + jobs_merge_union(t) + jobs_union_ops(t)), 'C17': (lambda t: jobs_c17(t) + jobs_record_keys(t)), 'C12': (lambda t: jobs_numpy(t) + jobs_numpy_astype(t)), 'C10': (lambda t: jobs_c10(t) + [j for j in jobs_record_named(t) if j[0] is h_record_field_key] + jobs_project(t) + [j for j in jobs_option_below(t) if j[1][3] in ('getitem_field', 'getitem_fields')] + jobs_record_setitem(t)), 'C05': jobs_c05, 'C09': jobs_c09}.get(prop, lambda t: [])(tier)
+    return {'C02': (lambda t: jobs_c02(t) + jobs_numpy_toregular(t)), 'C03': jobs_c03, 'C04': (lambda t: jobs_c04(t) + jobs_numpy_toregular(t)), 'C06': (lambda t: jobs_c06(t) + jobs_axis(t, ('sort', 'argsort')) + jobs_numpy_sort(t) + jobs_sort_nonlocal(t) + jobs_option_sort(t) + jobs_option_sort_above(t) + jobs_option_argsort(t) + jobs_string_argsort(t)), 'C08': (lambda t: jobs_c08(t) + jobs_numpy(t) + jobs_numpy_types(t) + jobs_union(t) + jobs_reverse_merge(t) + jobs_record_merge(t) + jobs_list_merge(t) + [j for j in jobs_record_named(t) if j[0] is h_record_mergemany_named] + jobs_merge_union(t) + jobs_union_ops(t)), 'C17': (lambda t: jobs_c17(t) + jobs_record_keys(t)), 'C12': (lambda t: jobs_numpy(t) + jobs_numpy_astype(t) + [(h_index_alloc, (), 900)]), 'C10': (lambda t: jobs_c10(t) + [j for j in jobs_record_named(t) if j[0] is h_record_field_key] + jobs_project(t) + [j for j in jobs_option_below(t) if j[1][3] in ('getitem_field', 'getitem_fields')] + jobs_record_setitem(t)), 'C05': jobs_c05, 'C09': jobs_c09}.get(prop, lambda t: [])(tier)
 
 
 # ------------------------------------------------------------------------------------------------ C01: getitem_next of list nodes
@@ -6217,3 +6217,42 @@ def h_numpy_mergemany_types(dta, dtb, n=2):
 def jobs_numpy_types(tier):
     pairs = list(INT_PROMOTION) if tier != 'quick' else [('uint32', 'int64'), ('int64', 'uint32'), ('uint16', 'int32'), ('uint8', 'int16'), ('int8', 'int64'), ('uint8', 'uint32'), ('bool', 'int64'), ('uint32', 'uint64')]
     return [(h_numpy_mergemany_types, p, 1800) for p in pairs]
+
+
+# ------------------------------------------------------------------------------------------------ C12: counts that overflow a sizing formula
+@guard
+def h_index_alloc():
+    """IndexOf<int64_t>(length) for any 64-bit length (a valid array can report a huge length without holding data: a RegularArray of size 0):
+    either the constructor raises, or the buffer it allocates really holds `length` items - length * sizeof(item) must not wrap into a small
+    allocation that kernels then overrun"""
+    nc = NodeCtx(['IDX', 'UTL', 'KD'], [], unwind=8)
+    nc.m.eng.stubs.update(nodeh.STRING_LENGTH_STUBS)
+    nc.m.eng.stubs['_ZNSt7__cxx119to_stringEl'] = nodeh.s_some_string
+    length = nc.m.bv('length')
+    nc.m.record('idx', {})
+    out = nc.m.call('_ZN7awkward7IndexOfIlEC2ElNS_6kernel3libE', [Ptr('idx', 0), length, z3.BitVecVal(0, 32)])
+    obls = []
+    p = nc.m.cell('idx', 8)
+    if p is None:
+        obls.append(('the constructor builds an index or raises', z3.Not(out.raised)))
+    else:
+        for g, q in nodeh.ptr_cases(p):
+            ok = z3.And(g, z3.Not(out.raised))
+            if q.obj is None:
+                obls.append(('an index of a positive length has a buffer', z3.And(ok, length > 0)))
+                continue
+            cap = nc.m.mem.o[q.obj].cap
+            obls.append(('the buffer holds `length` items (no wrap-around of length * 8)', z3.And(ok, z3.Or(length < 0, z3.ULT(cap, length)))))
+
+    def replay(model, ent):
+        n = model.eval(length, model_completion=True).as_signed_long()
+        if n < 2 ** 40:
+            return False, 'only lengths whose byte count wraps are replayed (others would really allocate)', {}
+        prog = 'i64 0  regular 0 %d num 1' % (n - 1)
+        kind, got = fullnative.akrun(prog)
+        payload = dict(program=prog, native=[kind, str(got)[:200]])
+        if kind == 'CRASH':
+            return True, 'num(axis=1) of a RegularArray of size 0 and length %d (needs an Index64 of %d items): native library crashes: %s' % (n - 1, n, str(got)[:200]), payload
+        return False, 'native library %s %s' % (kind, str(got)[:100]), payload
+    return mdischarge(nc.m, 'IndexOf<int64_t>::IndexOf(length)', obls, [('a length that is refused', out.raised), ('a length that is accepted', z3.Not(out.raised))], replay=replay,
+                      prefer=[length == 2 ** 61 + 2], extra=dict(bounds='any 64-bit length'))
